@@ -121,6 +121,8 @@ def run(ctx: Context) -> None:
     ctx.rule('R07.4', "edge / node masks: left is the face mask smeared along the second axis, back along the first, node along both; smear_mask ORs the two one-cell shifts on each selected axis", floor=5)
     ctx.rule('R07.5', "monotone construction: nothing derived from the hit set is negated, xor-ed, subtracted or compared for inequality on its way into the mask", floor=6)
     ctx.rule('R07.6', "meshes: one node-sharing ring per buffer step keeping the originals; kept edges / nodes are those of the kept faces' rows; every old-to-new table is numbered arange over a sorted, duplicate free index array", floor=10)
+    from .common import adopt_foundations as _adopt
+    _adopt(ctx, 'R07.7', ['geometry', 'topology', 'order'], floor=100)
     ctx.assume("STRtree 'intersects' hit sets are monotone in the query geometry; numpy.nditer multi_index iterates in C order")
     ctx.assume("NOT decided by execution: agreement of blur_mask / smear_mask with their definition on all small arrays; R07.3/R07.4 are the symbolic counterpart for all sizes")
 
